@@ -114,7 +114,7 @@ func genEqus(t *rapid.T) ([]rc.Item, []string) {
 func genExprCase(t *rapid.T) exprCase {
 	var c exprCase
 	c.Kind = rapid.SampledFrom([]string{"operand", "operand", "operand", "org", "for", "assert"}).Draw(t, "kind")
-	c.Cfg = gen.AsmConfig{CoreSize: rapid.SampledFrom([]int64{1 << 34, 1 << 34, 7, 8000, 8192}).Draw(t, "M")}
+	c.Cfg = gen.AsmConfig{NOP94: rapid.Bool().Draw(t, "nop94"), CoreSize: rapid.SampledFrom([]int64{1 << 34, 1 << 34, 7, 8000, 8192}).Draw(t, "M")}
 	if c.Kind != "operand" && c.Cfg.CoreSize == 7 {
 		c.Cfg.CoreSize = 8000 // the org/for/assert programs need room for up to 8 instructions
 	}
